@@ -25,7 +25,6 @@ import numpy as np
 from harness.common import frac
 
 PID = "C16"
-DISABLED = True
 THEOREMS = [
     "PorepyVerif.C16.tpsa_translation_zero_stress",
     "PorepyVerif.C16.tpsa_stress_coefficients_balance",
@@ -50,7 +49,9 @@ RULE = ("grids: 2-D Cartesian / structured triangles, 3-D Cartesian / structured
         "vectors with dyadic components incl. zero components; boundary data: all Dirichlet (= t), whole Neumann faces (zero traction) with >= 1 "
         "Dirichlet face, per-direction mixes ('rolling': Dirichlet in some directions and Neumann in others on the same face) with >= 1 fully "
         "Dirichlet face; ~10% of the cases additionally carry Robin faces (outside the property: only the matrix entries are tied to the model "
-        "and the stress is checked on the other faces). non-trivial = t != 0 and the grid has an interior face; distinct = distinct cases. "
+        "and the stress is checked on the other faces). Mixed systems whose matrix is singular (condition number > 1e11: one-cell-wide strips with free "
+        "lateral faces, ~1-2% of the cases) are outside the nonsingularity hypothesis: checked for zero stress and zero residual only, counted in "
+        "input_distribution. non-trivial = t != 0 and the grid has an interior face; distinct = distinct cases. "
         "Tie: EVERY face of every grid (all ten matrices, rows of the face); cell residual at a random state for grids up to 8 (16) cells.")
 TRUSTED = [
     "modelled, not verified: the vectorised assembly in Tpsa.discretize (bincount / kron / dia_array / csr_matrix_from_dense_blocks glue, raveling "
